@@ -39,6 +39,11 @@ pub fn fits_f32(o: &Operand) -> bool {
     o.iter().flatten().flatten().all(|c| (c[0] as f32) as f64 == c[0] && (c[1] as f32) as f64 == c[1])
 }
 
+/// edges that the queue-filling stage must turn into two events each (collapsed edges are skipped there)
+pub fn nondegenerate_edges(o: &Operand) -> usize {
+    o.iter().flatten().map(|r| r.windows(2).filter(|w| w[0] != w[1]).count()).sum()
+}
+
 pub fn edge_count(o: &Operand) -> usize {
     o.iter().flatten().map(|r| r.len().saturating_sub(1)).sum()
 }
@@ -228,6 +233,31 @@ pub fn gen_rect_operand(r: &mut Rng, g: i64, max_parts: u64) -> Operand {
         }
     }
     o
+}
+
+/// rectangle parts (each possibly with rectangular holes): outer rectangles pairwise at most corner-touching,
+/// or one strictly inside a hole of another
+pub fn valid_rect_parts(o: &Operand) -> bool {
+    let rect_of = |r: &Ring| -> Option<Rect> {
+        let b = bbox(&vec![vec![r.clone()]])?;
+        Some(Rect { x0: b.0 as i64, y0: b.1 as i64, x1: b.2 as i64, y1: b.3 as i64 })
+    };
+    let outers: Vec<Rect> = match o.iter().map(|p| p.first().and_then(rect_of)).collect::<Option<Vec<_>>>() {
+        Some(v) => v,
+        None => return false,
+    };
+    for i in 0..outers.len() {
+        for j in i + 1..outers.len() {
+            if meet(outers[i], outers[j]) > 1 {
+                // allowed only if one lies strictly inside a hole of the other
+                let inside_hole = |inner: Rect, host: &Poly| host[1..].iter().filter_map(rect_of).any(|h| h.x0 < inner.x0 && h.y0 < inner.y0 && inner.x1 < h.x1 && inner.y1 < h.y1);
+                if !(inside_hole(outers[i], &o[j]) || inside_hole(outers[j], &o[i])) {
+                    return false;
+                }
+            }
+        }
+    }
+    true
 }
 
 /// One orthogonal "histogram" polygon (columns of different heights over a common base line), under a
